@@ -21,7 +21,7 @@
      MONITOR case=.. clause=C10.real_epoll ..   key events lost / duplicated / reordered, output after the
                                                 end, input left unread while the loop sleeps, the loop returned
      MONITOR case=.. clause=C18.real_records .. a malformed record, a missing or an extra SYN_REPORT
-     DIFF    case=.. class=OBS_C10 ..           the bytes are exactly what the in-process real Mapper announces
+     DIFF    case=.. class=MAPPER_MODEL ..           the bytes are exactly what the in-process real Mapper announces
                                                 but not what the model says: the mapper differs from its model
                                                 (the loop and the driver transported it faithfully)
    plus CASEDEF for every case with a verdict, SAMPLE and SUMMARY lines. *)
@@ -207,7 +207,21 @@ let input_bytes (script : string) : string * int * int =
 type verdict = { clause : string; index : int; observed : string; expected : string }
 
 (* compare one phase; None = as the model says *)
+(* the 16 time bytes of a record are not constrained by C18 (the kernel ignores them on writes to uinput): the
+   observed stream is compared with the time field of every complete record set to zero *)
+let nonzero_time_records = ref 0
+let mask_time (obs : string) : string =
+  let b = Bytes.of_string obs in
+  let n = Bytes.length b / 24 in
+  for r = 0 to n - 1 do
+    let nz = ref false in
+    for j = 0 to 15 do if Bytes.get b (24 * r + j) <> '\000' then (nz := true; Bytes.set b (24 * r + j) '\000') done;
+    if !nz then incr nonzero_time_records
+  done;
+  Bytes.to_string b
+
 let judge (phase : string) (obs : string) (exp : string) : verdict option =
+  let obs = mask_time obs in
   if obs = exp then None
   else begin
     let ro = records_of obs and re = records_of exp in
@@ -221,7 +235,7 @@ let judge (phase : string) (obs : string) (exp : string) : verdict option =
     let rec is_prefix a b = match a, b with [], _ -> true | x :: a', y :: b' -> x = y && is_prefix a' b' | _ -> false in
     let clause, what =
       if String.length obs mod 24 <> 0 then "C18.real_records", Printf.sprintf "the stream ends inside a record (%d bytes)" (String.length obs)
-      else if List.exists (fun r -> not (wellformed r)) ro then "C18.real_records", "a record that is neither a key event (type 1, value 0/1, zero time) nor SYN_REPORT"
+      else if List.exists (fun r -> not (wellformed r)) ro then "C18.real_records", "a record that is neither a key event (type 1, value 0/1) nor SYN_REPORT"
       else if ko <> ke then
         "C10.real_epoll",
         (if nko < nke && is_prefix ko ke then Printf.sprintf "the last %d of %d key events of the output never arrive (input events lost)" (nke - nko) nke
@@ -285,7 +299,7 @@ let () =
            let clauses_hit : (string, unit) Hashtbl.t = Hashtbl.create 4 in
            let phase name obs exp impl =
              if obs <> exp && obs = impl then
-               Buffer.add_string out (Printf.sprintf "DIFF case=%s class=OBS_C10 at=0 impl=%s:the_loop_wrote_exactly_what_the_real_Mapper_computes_in_process model=%s\n"
+               Buffer.add_string out (Printf.sprintf "DIFF case=%s class=MAPPER_MODEL at=0 impl=%s:the_loop_wrote_exactly_what_the_real_Mapper_computes_in_process model=%s\n"
                                         c.id name (match judge name obs exp with Some v -> sp v.expected | None -> "-"))
              else match judge name obs exp with
                | None -> ()
@@ -330,6 +344,6 @@ let () =
       end;
       loop () in
   loop ();
-  Printf.printf "SUMMARY file=%s cases=%d skipped=%d nontrivial=%d distinct_nontrivial=%d key_events=%d in_records=%d out_records=%d writes=%d sends=%d model_steps=%d tablet_cases=%d tablet_nonempty=%d deadlines=%d final_write_over_64_keys=%d cases_with_write_over_64=%d\n"
+  Printf.printf "SUMMARY file=%s cases=%d skipped=%d nontrivial=%d distinct_nontrivial=%d key_events=%d in_records=%d out_records=%d writes=%d sends=%d model_steps=%d tablet_cases=%d tablet_nonempty=%d deadlines=%d final_write_over_64_keys=%d cases_with_write_over_64=%d nonzero_time_records=%d\n"
     path !cases !skipped !nontrivial (Hashtbl.length seen) !key_events !in_records !out_records !writes !sends !model_steps
-    !tablet_cases !tablet_nonempty !deadlines !big_final !over64
+    !tablet_cases !tablet_nonempty !deadlines !big_final !over64 !nonzero_time_records
